@@ -1,6 +1,7 @@
 """C01 module lifecycle state machine (L1 units; whole-core scenarios are added by the L2 layer)."""
 from vf.runner import Job, fl
 from vf.fp import core_fp
+from vf.l2 import l2_job, L2_STUBS
 
 SRC = ["Lib/core/mod.c", "Lib/core/ctx.c", "Lib/core/evts.c", "Lib/core/main.c",
        "Lib/structs/queue.c", "Lib/structs/stack.c", "Lib/structs/map.c", "Lib/structs/list.c", "Lib/structs/bst.c",
@@ -16,6 +17,7 @@ META = {
     "bounds": "(a) one public lifecycle call from ANY state/flags/tokens/ctx state, with and without a re-entrant "
               "pause/stop/deregister from inside on_start; (b) one evaluation pass over NM modules (3 quick, 4 thorough) "
               "in arbitrary states with arbitrary eval/start results",
+    "whole_core": "C01.evalbatch.* jobs run the complete core on the OS model (stubs: " + "; ".join(L2_STUBS) + ")",
     "outside": "bound modules (m_mod_bind), polling failures, more than NM modules in a pass; sequences of calls are "
                "covered inductively only as far as the stubbed layers are state-independent",
     "assumptions": ["representation invariant of the pre-state: running_modules == #RUNNING, a non-zombie module is in "
@@ -44,6 +46,14 @@ def jobs(tier):
                       symbolic=["state of each module", "on_eval present/result per module", "on_start result per module"],
                       bounds="NM=%d modules, table of 256 slots walked by m_map_iterate" % nm, timeout=1500,
                       **dict(common, unwindset={"hashmap_hash_string.0": 4, "strcmp.0": 24, "m_map_iterate.0": 258})))
+    # whole-core wiring of the evaluation pass: after every kind of processed batch and at loop start
+    batches = [0, 1, 2, 4] if tier == "quick" else [0, 1, 2, 3, 4]
+    for b in batches:
+        js.append(l2_job("C01.evalbatch.b%d" % b, "l2/c01_evalbatch.c", defines={"BATCH": b, "LOOPSTART": 0},
+                         symbolic=["errno left by callbacks (int)", "on_start result of the module being started"],
+                         bounds="batch kind %d" % b, unwind=13))
+    js.append(l2_job("C01.evalbatch.loopstart", "l2/c01_evalbatch.c", defines={"BATCH": 0, "LOOPSTART": 1},
+                     symbolic=["errno left by callbacks (int)", "on_start result"], bounds="loop start", unwind=13))
     return js
 
 
